@@ -42,9 +42,14 @@ def make_directed(row, case):
             start = np.array(d["start"]) @ M
             cart = start[None, :] - np.array(off)[:, None] * u[None, :]
             frac = cart @ Mi
-            if d.get("swap"):
-                frac = frac[::-1]
-            asym = {"symbols": ["H"] + ["C"] * d["ncarbon"] + ["H"], "frac": frac, "molidx": [0] * n, "bonds": bonds, "cell": cell, "M": M}
+            syms_rod = ["H"] + ["C"] * d["ncarbon"] + ["H"]
+            # listing order of the chain: natural, reversed, or scrambled (even positions first / a fixed pseudo-random order), so
+            # that inner atoms are reached from neighbours listed AFTER them
+            order = {"reversed": list(range(n))[::-1], "even-odd": list(range(0, n, 2)) + list(range(1, n, 2)),
+                     "scrambled": sorted(range(n), key=lambda i: (i * 7919 + 13) % 31)}.get(d.get("listing") or ("reversed" if d.get("swap") else None), list(range(n)))
+            inv = {old: new for new, old in enumerate(order)}
+            frac = frac[order]
+            asym = {"symbols": [syms_rod[i] for i in order], "frac": frac, "molidx": [0] * n, "bonds": [(inv[a], inv[b]) for a, b in bonds], "cell": cell, "M": M}
             imgs = mol.images(ops, asym)
             if mol.precondition(asym, imgs)[0]:
                 break
@@ -218,7 +223,7 @@ def check_case(part, row, case):
 
 def plan(row, tier, seed, full):
     cases = []
-    zkinds = ["1", "2diff", "1ooc"] if not full else list(mol.ZPRIME)
+    zkinds = ["1", "2diff", "1ooc", "1hooh_scr"] if not full else list(mol.ZPRIME)
     if full:
         centres = list(itertools.product(mol.CENTRES, repeat=3))
         orients = (0, 1, 2)
@@ -236,7 +241,7 @@ def plan(row, tier, seed, full):
     # grid of centres right at the cell faces, in all three orientations (bonds crossing a face at many angles)
     face = (0.004, 0.031, 0.969, 0.996, 0.47)
     for cv in range(1, ncell):
-        for zk in ("1", "1ooc", "2diff"):
+        for zk in ("1", "1ooc", "2diff", "1hooh_scr"):
             cs = [c for c in itertools.product(face, repeat=3) if sum(1 for v in c if v != 0.47) in (1, 2)] if (row["number"] <= 15 and (full or row["index_in_number"] == 0)) \
                 else [(0.983, 0.289, 0.017), (0.137, 0.983, 0.611)]
             for ci, ce in enumerate(cs):
@@ -257,9 +262,9 @@ def plan(row, tier, seed, full):
     if row["number"] <= 15 and (full or row["index_in_number"] == 0):
         for nc in (8, 16, 24):
             for start in ([0.10, 0.95, 0.25], [3.10, 0.95, 0.25], [-2.90, 0.95, 0.25], [0.96, 0.07, 0.31]):
-                for swap in (False, True):
+                for listing in (None, "reversed", "even-odd", "scrambled"):
                     cases.append({"number": row["number"], "choice": row["choice"], "zkind": "directed", "centre": [0, 0, 0], "orient": 0, "seed": seed,
-                                  "directed": {"rod": True, "ncarbon": nc, "start": start, "swap": swap}})
+                                  "directed": {"rod": True, "ncarbon": nc, "start": start, "listing": listing}})
     return cases
 
 
